@@ -20,6 +20,7 @@ the generated formulas with the running implementation (guards this translator).
 from __future__ import annotations
 
 import ast
+import re
 from fractions import Fraction
 from typing import Any, Callable
 
@@ -230,6 +231,10 @@ class Interp:
         elif obj.kind == 'Matrix':
             if attr not in MAT_FIELDS or not is_scalar(val):
                 raise TranslateError(f'bad store Matrix.{attr}')
+        elif obj.kind == 'UVAxis':
+            # a plain attrs class: `axis.offset -= ...` on a freshly built axis is an ordinary field store
+            if attr not in self.uv_fields or not is_scalar(val):
+                raise TranslateError(f'bad store UVAxis.{attr}')
         elif obj.kind in ('Side', 'DispVertex', 'Solid'):
             if attr not in obj.f:
                 raise TranslateError(f'store to unknown attribute {obj.kind}.{attr}')
@@ -717,56 +722,287 @@ def _fixup_key_branches(fn: ast.FunctionDef) -> list[tuple[list[str], ast.If]]:
 IDENT_RE = '[a-z_][a-z0-9_]*'
 
 
+def _single_assigned_locals(fn: ast.FunctionDef) -> dict[str, ast.expr]:
+    """Names bound exactly once in [fn] (nested functions not entered), by a plain `name = expr` / `name: T = expr`."""
+    counts: dict[str, int] = {}
+    vals: dict[str, ast.expr] = {}
+
+    def visit(node: ast.AST) -> None:
+        for ch in ast.iter_child_nodes(node):
+            if isinstance(ch, (ast.FunctionDef, ast.AsyncFunctionDef, ast.ClassDef, ast.Lambda)):
+                if hasattr(ch, 'name'):
+                    counts[ch.name] = counts.get(ch.name, 0) + 2
+                continue
+            if isinstance(ch, ast.Name) and isinstance(ch.ctx, (ast.Store, ast.Del)):
+                counts[ch.id] = counts.get(ch.id, 0) + 1
+            if isinstance(ch, ast.ExceptHandler) and ch.name:
+                counts[ch.name] = counts.get(ch.name, 0) + 2
+            if isinstance(ch, (ast.ListComp, ast.SetComp, ast.DictComp, ast.GeneratorExp)):
+                continue                  # comprehension variables are their own scope
+            if isinstance(ch, ast.Assign) and len(ch.targets) == 1 and isinstance(ch.targets[0], ast.Name):
+                vals[ch.targets[0].id] = ch.value
+            elif isinstance(ch, ast.AnnAssign) and isinstance(ch.target, ast.Name) and ch.value is not None:
+                vals[ch.target.id] = ch.value
+            elif isinstance(ch, (ast.AugAssign, ast.For, ast.With, ast.NamedExpr)):
+                for n in ast.walk(ch.target if hasattr(ch, 'target') else ch):
+                    if isinstance(n, ast.Name) and isinstance(n.ctx, ast.Store):
+                        counts[n.id] = counts.get(n.id, 0) + 1      # counted twice with the generic rule: never "once"
+            visit(ch)
+    visit(fn)
+    args = {a.arg for a in fn.args.args + fn.args.kwonlyargs + fn.args.posonlyargs}
+    return {k: v for k, v in vals.items() if counts.get(k) == 1 and k not in args}
+
+
+def _module_str_consts(tree: ast.Module) -> dict[str, str]:
+    out: dict[str, str] = {}
+    seen: dict[str, int] = {}
+    for n in tree.body:
+        tg = n.targets[0] if isinstance(n, ast.Assign) and len(n.targets) == 1 else n.target if isinstance(n, ast.AnnAssign) else None
+        if isinstance(tg, ast.Name):
+            seen[tg.id] = seen.get(tg.id, 0) + 1
+            if isinstance(n.value, ast.Constant) and isinstance(n.value.value, str):
+                out[tg.id] = n.value.value
+    return {k: v for k, v in out.items() if seen[k] == 1}
+
+
+MUTATING_METHODS = {'append', 'extend', 'insert', 'add', 'update', 'pop', 'popitem', 'remove', 'discard', 'clear', 'sort', 'reverse',
+                    'setdefault', '__setitem__', '__delitem__'}
+KEY_ITERS = ('self._fixup.keys()', 'self._fixup', 'list(self._fixup)', 'list(self._fixup.keys())', 'iter(self._fixup)',
+             'tuple(self._fixup)', 'tuple(self._fixup.keys())')
+
+
+def _subst_pattern(fn: ast.FunctionDef, module: ast.Module) -> dict:
+    """How EntityFixup.substitute builds its regular expression: the list of alternatives is *evaluated symbolically*
+    (list(map(...)), comprehension, generator, append-loop, literal lists, +, +=, append / extend / insert, locals bound
+    once and module-level string constants inlined), so that equivalent spellings give the same configuration.
+    -> longest_first, ident_fallback, bang_group, ignore_case."""
+    locs_all = _single_assigned_locals(fn)
+    # never inline a local that is modified after it is bound (sections.append(...), x[k] = ..., del x[k])
+    mutated = {n.func.value.id for n in ast.walk(fn) if isinstance(n, ast.Call) and isinstance(n.func, ast.Attribute)
+               and isinstance(n.func.value, ast.Name) and n.func.attr in MUTATING_METHODS}
+    mutated |= {n.value.id for n in ast.walk(fn) if isinstance(n, ast.Subscript) and isinstance(n.ctx, (ast.Store, ast.Del))
+                and isinstance(n.value, ast.Name)}
+    locs = {k: v for k, v in locs_all.items() if k not in mutated}
+    consts = _module_str_consts(module)
+    cfg: dict[str, Any] = {}
+
+    def res(e: ast.expr) -> ast.expr:
+        """Inline locals bound once (one level at a time)."""
+        seen = 0
+        while isinstance(e, ast.Name) and e.id in locs and seen < 8:
+            e = locs[e.id]
+            seen += 1
+        return e
+
+    def as_str(e: ast.expr) -> str | None:
+        e = res(e)
+        if isinstance(e, ast.Constant) and isinstance(e.value, str):
+            return e.value
+        if isinstance(e, ast.Name) and e.id in consts:
+            return consts[e.id]
+        return None
+
+    def len_key(e: ast.expr) -> str | None:
+        """'len' / 'neglen' for key=len, key=lambda k: len(k), key=lambda k: -len(k)."""
+        e = res(e)
+        if isinstance(e, ast.Name) and e.id == 'len':
+            return 'len'
+        if isinstance(e, ast.Lambda) and len(e.args.args) == 1 and not (e.args.vararg or e.args.kwarg or e.args.kwonlyargs or e.args.defaults):
+            a = e.args.args[0].arg
+            if ast.unparse(e.body) == f'len({a})':
+                return 'len'
+            if ast.unparse(e.body) == f'-len({a})':
+                return 'neglen'
+        return None
+
+    def keys_iter(e: ast.expr) -> bool:
+        """An iterable over the defined variable names -> are they ordered longest first?"""
+        e = res(e)
+        src = ast.unparse(e)
+        # `fixup = self._fixup` style aliases
+        for nm, val in locs_all.items():
+            if ast.unparse(val) == 'self._fixup':
+                src = re.sub(rf'\b{re.escape(nm)}\b', 'self._fixup', src)
+        if src in KEY_ITERS:
+            return False
+        if isinstance(e, ast.Call) and ast.unparse(e.func) == 'sorted' and len(e.args) == 1:
+            keys_iter(e.args[0])          # must itself be an iteration over the names
+            kw = {k.arg: k.value for k in e.keywords}
+            if not set(kw) <= {'key', 'reverse'}:
+                raise TranslateError(f'substitute: sorted(...) arguments {sorted(map(str, kw))} not recognised')
+            rev = res(kw['reverse']) if 'reverse' in kw else ast.Constant(False)
+            if not (isinstance(rev, ast.Constant) and isinstance(rev.value, bool)):
+                raise TranslateError('substitute: sorted(reverse=...) is not a literal')
+            if 'key' not in kw:
+                return False              # alphabetical: not by length
+            lk = len_key(kw['key'])
+            if lk is None:
+                raise TranslateError(f'substitute: sort key `{ast.unparse(kw["key"])[:40]}` not recognised')
+            return (lk == 'len') == rev.value
+        raise TranslateError(f'substitute: alternatives `{src[:60]}` not recognised')
+
+    def escaped_over(elt: ast.expr, target: ast.expr, it: ast.expr) -> list:
+        if not isinstance(target, ast.Name):
+            raise TranslateError('substitute: loop target over the variable names')
+        if not (isinstance(elt, ast.Call) and ast.unparse(elt.func) == 're.escape' and len(elt.args) == 1 and not elt.keywords
+                and isinstance(elt.args[0], ast.Name) and elt.args[0].id == target.id):
+            raise TranslateError(f'substitute: the alternative `{ast.unparse(elt)[:40]}` is not re.escape(<name>)')
+        return [('KEYS', keys_iter(it))]
+
+    def sym(e: ast.expr, env: dict[str, list]) -> list:
+        if isinstance(e, ast.Name) and e.id in env:
+            return list(env[e.id])
+        e = res(e)
+        if isinstance(e, (ast.List, ast.Tuple)):
+            out: list = []
+            for x in e.elts:
+                if isinstance(x, ast.Starred):
+                    out += sym(x.value, env)
+                else:
+                    s_ = as_str(x)
+                    if s_ is None:
+                        raise TranslateError(f'substitute: alternative `{ast.unparse(x)[:40]}` is not a string constant')
+                    out.append(('LIT', s_))
+            return out
+        if isinstance(e, ast.BinOp) and isinstance(e.op, ast.Add):
+            return sym(e.left, env) + sym(e.right, env)
+        if isinstance(e, ast.Call) and ast.unparse(e.func) in ('list', 'tuple') and len(e.args) == 1 and not e.keywords:
+            return sym(e.args[0], env)
+        if isinstance(e, ast.Call) and ast.unparse(e.func) == 'map' and len(e.args) == 2 and not e.keywords:
+            if ast.unparse(e.args[0]) != 're.escape':
+                raise TranslateError(f'substitute: map({ast.unparse(e.args[0])[:30]}, ...) over the names is not re.escape')
+            return [('KEYS', keys_iter(e.args[1]))]
+        if isinstance(e, (ast.ListComp, ast.GeneratorExp)) and len(e.generators) == 1 and not e.generators[0].ifs \
+                and not e.generators[0].is_async:
+            g = e.generators[0]
+            return escaped_over(e.elt, g.target, g.iter)
+        raise TranslateError(f'substitute: list of alternatives `{ast.unparse(e)[:60]}` not recognised')
+
+    # --- re.compile(pattern, flags)
+    comp = [n for n in ast.walk(fn) if isinstance(n, ast.Call) and ast.unparse(n.func) == 're.compile']
+    if len(comp) != 1 or not (comp[0].args or any(k.arg == 'pattern' for k in comp[0].keywords)):
+        raise TranslateError('substitute: re.compile(...) not found')
+    ckw = {k.arg: k.value for k in comp[0].keywords}
+    if not set(ckw) <= {'pattern', 'flags'} or len(comp[0].args) + len(ckw) > 2:
+        raise TranslateError('substitute: re.compile() arguments')
+    pat = res(comp[0].args[0] if comp[0].args else ckw['pattern'])
+    flag_e = comp[0].args[1] if len(comp[0].args) > 1 else ckw.get('flags')
+    if not isinstance(pat, ast.JoinedStr):
+        raise TranslateError('substitute: the pattern is not an f-string')
+    # flatten the f-string: constants (module constants / locals inlined) and exactly one '|'.join(<list>)
+    prefix, suffix, join_arg = '', '', None
+    for part in pat.values:
+        if isinstance(part, ast.Constant) and isinstance(part.value, str):
+            txt = part.value
+        elif isinstance(part, ast.FormattedValue) and part.conversion == -1 and part.format_spec is None:
+            v = res(part.value)
+            txt = as_str(v)
+            if txt is None:
+                if not (isinstance(v, ast.Call) and isinstance(v.func, ast.Attribute) and v.func.attr == 'join' and as_str(v.func.value) == '|'
+                        and len(v.args) == 1 and not v.keywords and join_arg is None):
+                    raise TranslateError(f'substitute: pattern piece `{ast.unparse(part.value)[:40]}` not recognised')
+                join_arg = v.args[0]
+                continue
+        else:
+            raise TranslateError('substitute: pattern piece')
+        if join_arg is None:
+            prefix += txt
+        else:
+            suffix += txt
+    if join_arg is None or suffix != ')':
+        raise TranslateError('substitute: pattern is not <prefix>(<alternatives joined by |>)')
+    if prefix == '(!)?\\$(':
+        cfg['bang_group'] = True
+    elif prefix == '\\$(':
+        cfg['bang_group'] = False
+    else:
+        raise TranslateError(f'substitute: pattern prefix {prefix!r} not recognised')
+    flags = [] if flag_e is None else [ast.unparse(res(flag_e))]
+    if flags not in ([], ['re.IGNORECASE'], ['re.I']):
+        raise TranslateError(f'substitute: regex flags {flags}')
+    cfg['ignore_case'] = bool(flags)
+
+    # --- the list that is joined: evaluate the statements that build it, in order
+    env: dict[str, list] = {}
+    if isinstance(join_arg, ast.Name) and join_arg.id not in locs:      # a list built by statements
+        lname = join_arg.id
+
+        def touches(n: ast.AST) -> bool:
+            return any(isinstance(x, ast.Name) and x.id == lname for x in ast.walk(n))
+
+        def find_block(body: list[ast.stmt]) -> list[ast.stmt] | None:
+            """The one statement list that holds every statement mentioning the list variable."""
+            mine = [st for st in body if not isinstance(st, (ast.FunctionDef, ast.ClassDef)) and touches(st)]
+            if not mine:
+                return None
+            if len(mine) == 1 and not isinstance(mine[0], (ast.Assign, ast.AnnAssign, ast.AugAssign, ast.Expr, ast.For)):
+                st = mine[0]
+                if isinstance(st, ast.If) and not touches(st.test) and not any(touches(x) for x in st.orelse):
+                    return find_block(st.body)
+                raise TranslateError(f'substitute: `{lname}` is built inside a `{type(st).__name__}` statement that is not understood')
+            return body
+        blk = find_block(fn.body)
+        if blk is None:
+            raise TranslateError(f'substitute: `{lname}` is never built')
+        alts = None
+        for st in blk:
+            if isinstance(st, (ast.FunctionDef, ast.ClassDef)) or not touches(st):
+                continue
+            if any(n is join_arg for n in ast.walk(st)):
+                # the statement in which the list is joined: its value *here* is what the pattern is made of
+                if lname not in env or isinstance(st, ast.For):
+                    raise TranslateError(f'substitute: `{lname}` joined before it is built')
+                alts = list(env[lname])
+                break
+            if isinstance(st, (ast.Assign, ast.AnnAssign)):
+                tg = st.targets[0] if isinstance(st, ast.Assign) and len(st.targets) == 1 else getattr(st, 'target', None)
+                if isinstance(tg, ast.Name) and tg.id == lname and st.value is not None:
+                    env[lname] = sym(st.value, env)
+                    continue
+                raise TranslateError(f'substitute: `{ast.unparse(st)[:60]}` uses `{lname}` in a way that is not understood')
+            if lname not in env:
+                raise TranslateError(f'substitute: `{lname}` used before it is assigned')
+            if isinstance(st, ast.AugAssign) and isinstance(st.target, ast.Name) and st.target.id == lname and isinstance(st.op, ast.Add):
+                env[lname] = env[lname] + sym(st.value, env)
+                continue
+            if isinstance(st, ast.Expr) and isinstance(st.value, ast.Call) and isinstance(st.value.func, ast.Attribute) \
+                    and isinstance(st.value.func.value, ast.Name) and st.value.func.value.id == lname and not st.value.keywords:
+                meth, a = st.value.func.attr, st.value.args
+                if meth == 'append' and len(a) == 1:
+                    env[lname] = env[lname] + sym(ast.List(elts=[a[0]], ctx=ast.Load()), env)
+                    continue
+                if meth == 'extend' and len(a) == 1:
+                    env[lname] = env[lname] + sym(a[0], env)
+                    continue
+                if meth == 'insert' and len(a) == 2 and isinstance(a[0], ast.Constant) and isinstance(a[0].value, int):
+                    cur = env[lname]
+                    cur.insert(a[0].value, sym(ast.List(elts=[a[1]], ctx=ast.Load()), env)[0])
+                    continue
+            if isinstance(st, ast.For) and not st.orelse and len(st.body) == 1 and isinstance(st.body[0], ast.Expr) \
+                    and isinstance(st.body[0].value, ast.Call) and ast.unparse(st.body[0].value.func) == f'{lname}.append' \
+                    and len(st.body[0].value.args) == 1 and not touches(st.iter):
+                env[lname] = env[lname] + escaped_over(st.body[0].value.args[0], st.target, st.iter)
+                continue
+            raise TranslateError(f'substitute: `{ast.unparse(st)[:60]}` uses `{lname}` in a way that is not understood')
+        if alts is None:
+            raise TranslateError(f'substitute: `{lname}` is not joined in the block that builds it')
+    else:
+        alts = sym(join_arg, env)
+    if alts and alts[0][0] == 'KEYS' and len(alts) == 1:
+        cfg['longest_first'], cfg['ident_fallback'] = alts[0][1], False
+    elif len(alts) == 2 and alts[0][0] == 'KEYS' and alts[1] == ('LIT', IDENT_RE):
+        cfg['longest_first'], cfg['ident_fallback'] = alts[0][1], True
+    else:
+        raise TranslateError(f'substitute: the alternatives {alts} are not <defined names>[, identifier fallback]')
+    return cfg
+
+
 def _substitute_cfg() -> dict:
     """The shape of the regular expression and of the replacer of EntityFixup.substitute -> subst_cfg (SM/C17Subst.v)."""
     vtree = ast.parse(src_text('vmf.py'))
     fn = _find_func(vtree, 'substitute', 'EntityFixup')
     cfg: dict[str, Any] = {}
-    # sections = list(map(re.escape, sorted(self._fixup.keys(), key=len, reverse=True)))
-    sec = [n for n in ast.walk(fn) if isinstance(n, (ast.Assign, ast.AnnAssign))
-           and ast.unparse(n.targets[0] if isinstance(n, ast.Assign) else n.target) == 'sections']
-    if len(sec) != 1:
-        raise TranslateError('substitute: expected exactly one assignment to `sections`')
-    v = sec[0].value
-    if not (isinstance(v, ast.Call) and ast.unparse(v.func) == 'list' and len(v.args) == 1 and isinstance(v.args[0], ast.Call)
-            and ast.unparse(v.args[0].func) == 'map' and len(v.args[0].args) == 2 and ast.unparse(v.args[0].args[0]) == 're.escape'):
-        raise TranslateError(f'substitute: `sections = {ast.unparse(v)[:60]}` is not list(map(re.escape, ...))')
-    keys = v.args[0].args[1]
-    plain_keys = ('self._fixup.keys()', 'self._fixup', 'fixup.keys()', 'fixup')
-    if isinstance(keys, ast.Call) and ast.unparse(keys.func) == 'sorted' and len(keys.args) == 1 and ast.unparse(keys.args[0]) in plain_keys:
-        kw = {k.arg: ast.unparse(k.value) for k in keys.keywords}
-        if not set(kw) <= {'key', 'reverse'} or kw.get('key', 'len') != 'len' or kw.get('reverse', 'False') not in ('True', 'False'):
-            raise TranslateError(f'substitute: sorted(...) arguments {kw} not recognised')
-        cfg['longest_first'] = kw.get('key') == 'len' and kw.get('reverse') == 'True'
-    elif ast.unparse(keys) in plain_keys:
-        cfg['longest_first'] = False
-    else:
-        raise TranslateError(f'substitute: alternatives `{ast.unparse(keys)[:60]}` not recognised')
-    apps = [n for n in ast.walk(fn) if isinstance(n, ast.Call) and ast.unparse(n.func) in ('sections.append', 'sections.extend', 'sections.insert')]
-    if not apps:
-        cfg['ident_fallback'] = False
-    elif len(apps) == 1 and ast.unparse(apps[0].func) == 'sections.append' and len(apps[0].args) == 1 \
-            and isinstance(apps[0].args[0], ast.Constant) and apps[0].args[0].value == IDENT_RE:
-        cfg['ident_fallback'] = True
-    else:
-        raise TranslateError('substitute: what is added to `sections` is not the identifier fallback')
-    comp = [n for n in ast.walk(fn) if isinstance(n, ast.Call) and ast.unparse(n.func) == 're.compile']
-    if len(comp) != 1 or not comp[0].args or not isinstance(comp[0].args[0], ast.JoinedStr) or comp[0].keywords:
-        raise TranslateError('substitute: re.compile(f"...") not found')
-    parts = comp[0].args[0].values
-    if not (len(parts) == 3 and isinstance(parts[0], ast.Constant) and isinstance(parts[2], ast.Constant) and parts[2].value == ')'
-            and isinstance(parts[1], ast.FormattedValue) and ast.unparse(parts[1].value) == "'|'.join(sections)"):
-        raise TranslateError('substitute: pattern is not <prefix>(<alternatives joined by |>)')
-    if parts[0].value == '(!)?\\$(':
-        cfg['bang_group'] = True
-    elif parts[0].value == '\\$(':
-        cfg['bang_group'] = False
-    else:
-        raise TranslateError(f'substitute: pattern prefix {parts[0].value!r} not recognised')
-    flags = [ast.unparse(a) for a in comp[0].args[1:]]
-    if flags not in ([], ['re.IGNORECASE'], ['re.I']):
-        raise TranslateError(f'substitute: regex flags {flags}')
-    cfg['ignore_case'] = bool(flags)
+    cfg.update(_subst_pattern(fn, vtree))
     # the pattern object that is compiled is the one that is used, on the text, with the replacer
     subs = [n for n in ast.walk(fn) if isinstance(n, ast.Call) and isinstance(n.func, ast.Attribute) and n.func.attr in ('sub', 'subn')]
     if len(subs) != 1 or ast.unparse(subs[0]) != 'self._matcher.sub(replacer, text)':
@@ -822,6 +1058,191 @@ def _substitute_cfg() -> dict:
     cfg['bools'] = [(k.value, v_.value) for k, v_ in zip(bl.keys, bl.values)]
     cfg['digest'] = ast_digest(fn)
     return cfg
+
+
+# ---------------------------------------------------------------------------------------------- the compiled-pattern cache
+def _fixup_cache(vtree: ast.Module, other_trees: dict[str, ast.Module]) -> dict:
+    """`EntityFixup._matcher` caches the compiled pattern: every method that may change the key set of the table resets it
+    (SM/C17Cache.v).  One shape per method of the class; uses of the two attributes elsewhere are counted."""
+    cls = next((n for n in vtree.body if isinstance(n, ast.ClassDef) and n.name == 'EntityFixup'), None)
+    if cls is None:
+        raise TranslateError('vmf.py: class EntityFixup not found')
+    sub_fn = _find_func(vtree, 'substitute', 'EntityFixup')
+
+    def self_attr(e: ast.AST, recv: str = 'self') -> str | None:
+        return e.attr if isinstance(e, ast.Attribute) and isinstance(e.value, ast.Name) and e.value.id == recv else None
+    # the cache attribute: the receiver of .sub(); it is compiled under `if self.C is None:` from another attribute, the table
+    subs = [n for n in ast.walk(sub_fn) if isinstance(n, ast.Call) and isinstance(n.func, ast.Attribute) and n.func.attr in ('sub', 'subn')
+            and self_attr(n.func.value)]
+    if len(subs) != 1:
+        raise TranslateError('substitute: the pattern that is used is not an attribute of self')
+    C = self_attr(subs[0].func.value)
+    guards = [n for n in ast.walk(sub_fn) if isinstance(n, ast.If) and isinstance(n.test, ast.Compare) and self_attr(n.test.left) == C
+              and len(n.test.ops) == 1 and isinstance(n.test.ops[0], ast.Is) and isinstance(n.test.comparators[0], ast.Constant)
+              and n.test.comparators[0].value is None and not n.orelse]
+    stores_c = [n for n in ast.walk(sub_fn) if isinstance(n, ast.Attribute) and isinstance(n.ctx, ast.Store) and self_attr(n) == C]
+    if len(guards) != 1 or len(stores_c) != 1 or not any(x is stores_c[0] for x in ast.walk(guards[0])):
+        raise TranslateError(f'substitute: `if self.{C} is None: self.{C} = re.compile(...)` not found')
+    tabs = {self_attr(x) for x in ast.walk(guards[0]) if self_attr(x) and self_attr(x) != C}
+    if len(tabs) != 1:
+        raise TranslateError(f'substitute: the pattern is compiled from {sorted(tabs)}, expected one attribute of self')
+    T = tabs.pop()
+    if any(isinstance(x, ast.Attribute) and isinstance(x.ctx, (ast.Store, ast.Del)) and self_attr(x) == T for x in ast.walk(sub_fn)) or \
+            any(isinstance(x, ast.Subscript) and isinstance(x.ctx, (ast.Store, ast.Del)) and self_attr(x.value) == T for x in ast.walk(sub_fn)):
+        raise TranslateError(f'substitute writes self.{T}')
+
+    def is_none(e: ast.expr | None) -> bool:
+        return isinstance(e, ast.Constant) and e.value is None
+
+    def same_keys(e: ast.expr) -> bool:
+        """A dict with exactly the keys of self.T."""
+        if isinstance(e, ast.DictComp) and len(e.generators) == 1:
+            g = e.generators[0]
+            it = g.iter
+            if not g.ifs and isinstance(it, ast.Call) and isinstance(it.func, ast.Attribute) and not it.args and self_attr(it.func.value) == T:
+                if it.func.attr == 'items' and isinstance(g.target, ast.Tuple) and len(g.target.elts) == 2 and isinstance(g.target.elts[0], ast.Name):
+                    return isinstance(e.key, ast.Name) and e.key.id == g.target.elts[0].id
+                if it.func.attr == 'keys' and isinstance(g.target, ast.Name):
+                    return isinstance(e.key, ast.Name) and e.key.id == g.target.id
+            if not g.ifs and self_attr(it) == T and isinstance(g.target, ast.Name):
+                return isinstance(e.key, ast.Name) and e.key.id == g.target.id
+        if isinstance(e, ast.Call) and not e.keywords:
+            if isinstance(e.func, ast.Name) and e.func.id == 'dict' and len(e.args) == 1 and self_attr(e.args[0]) == T:
+                return True
+            if isinstance(e.func, ast.Attribute) and e.func.attr == 'copy' and not e.args and self_attr(e.func.value) == T:
+                return True
+        return False
+
+    shapes: list[tuple[str, str]] = []
+    detail: list[str] = []
+    for fn in cls.body:
+        if not isinstance(fn, ast.FunctionDef) or _is_overload(fn) or fn is sub_fn:
+            continue
+        params = fn.args.posonlyargs + fn.args.args
+        if not params or params[0].arg != 'self':
+            if any(isinstance(x, ast.Attribute) and x.attr in (C, T) for x in ast.walk(fn)):
+                raise TranslateError(f'EntityFixup.{fn.name}: touches {C}/{T} without `self`')
+            continue
+        # statement lists, with the chain of (list, index) from the function body down to every statement
+        chains: dict[int, list[tuple[list, int]]] = {}
+
+        def walk_list(lst: list[ast.stmt], up: list[tuple[list, int]]) -> None:
+            for i, st in enumerate(lst):
+                here = up + [(lst, i)]
+                for x in ast.walk(st):
+                    chains.setdefault(id(x), here)            # innermost wins below
+                for field in ('body', 'orelse', 'finalbody'):
+                    sub = getattr(st, field, None)
+                    if isinstance(sub, list) and sub and isinstance(sub[0], ast.stmt) and not isinstance(st, (ast.FunctionDef, ast.ClassDef)):
+                        walk_list2(sub, here)
+                for h in getattr(st, 'handlers', []):
+                    walk_list2(h.body, here)
+
+        def walk_list2(lst: list[ast.stmt], up: list[tuple[list, int]]) -> None:
+            for i, st in enumerate(lst):
+                here = up + [(lst, i)]
+                for x in ast.walk(st):
+                    chains[id(x)] = here
+                for field in ('body', 'orelse', 'finalbody'):
+                    sub = getattr(st, field, None)
+                    if isinstance(sub, list) and sub and isinstance(sub[0], ast.stmt) and not isinstance(st, (ast.FunctionDef, ast.ClassDef)):
+                        walk_list2(sub, here)
+                for h in getattr(st, 'handlers', []):
+                    walk_list2(h.body, here)
+        walk_list2(_body(fn), [])
+        resets = [st for st in ast.walk(fn) if isinstance(st, (ast.Assign, ast.AnnAssign)) and is_none(st.value)
+                  and all(self_attr(t) == C for t in (st.targets if isinstance(st, ast.Assign) else [st.target]))]
+        changes: list[ast.AST] = []
+        for x in ast.walk(fn):
+            if isinstance(x, ast.Subscript) and isinstance(x.ctx, (ast.Store, ast.Del)) and self_attr(x.value) == T:
+                changes.append(x)
+            elif isinstance(x, ast.Call) and isinstance(x.func, ast.Attribute) and x.func.attr in MUTATING_METHODS and self_attr(x.func.value) == T:
+                changes.append(x)
+            elif isinstance(x, ast.Attribute) and isinstance(x.ctx, (ast.Store, ast.Del)) and self_attr(x) == T:
+                changes.append(x)
+            elif isinstance(x, ast.Attribute) and isinstance(x.ctx, ast.Store) and self_attr(x) == C and not any(
+                    x in (r.targets if isinstance(r, ast.Assign) else [r.target]) for r in resets):
+                raise TranslateError(f'EntityFixup.{fn.name}: self.{C} is assigned something other than None')
+            elif isinstance(x, ast.Name) and x.id == 'self' and isinstance(x.ctx, ast.Load):
+                pass
+
+        def reset_reaches(site: ast.AST) -> bool:
+            for lst, i in reversed(chains.get(id(site), [])):
+                for r in resets:
+                    if r in lst:
+                        j = lst.index(r)
+                        lo, hi = min(i, j), max(i, j)
+                        if not any(isinstance(m, (ast.Return, ast.Raise, ast.Continue, ast.Break)) for m in lst[lo + 1:hi]):
+                            return True
+            return False
+        # another object of the class built from this one
+        others: dict[str, dict[str, ast.expr]] = {}
+        for st in ast.walk(fn):
+            if isinstance(st, ast.Assign) and len(st.targets) == 1 and isinstance(st.targets[0], ast.Attribute) \
+                    and isinstance(st.targets[0].value, ast.Name) and st.targets[0].value.id != 'self' and st.targets[0].attr in (C, T):
+                others.setdefault(st.targets[0].value.id, {})[st.targets[0].attr] = st.value
+        for x in ast.walk(fn):
+            if isinstance(x, ast.Attribute) and x.attr in (C, T) and not (isinstance(x.value, ast.Name)):
+                raise TranslateError(f'EntityFixup.{fn.name}: `{ast.unparse(x)[:50]}`: {C}/{T} of an object that is not a plain name')
+            if isinstance(x, ast.Attribute) and x.attr in (C, T) and isinstance(x.value, ast.Name) and x.value.id != 'self' \
+                    and not (isinstance(x.ctx, ast.Store) and x.value.id in others):
+                raise TranslateError(f'EntityFixup.{fn.name}: `{ast.unparse(x)[:50]}` read or deleted on another object')
+        # the table must not be handed to anything this census cannot follow (alias, argument, return value)
+        par: dict[int, ast.AST] = {}
+        for n in ast.walk(fn):
+            for c in ast.iter_child_nodes(n):
+                par[id(c)] = n
+        for x in ast.walk(fn):
+            if self_attr(x) != T or not isinstance(x.ctx, ast.Load):
+                continue
+            pn = par.get(id(x))
+            fine = (isinstance(pn, ast.Subscript) and pn.value is x) or (isinstance(pn, ast.Attribute) and pn.value is x) \
+                or (isinstance(pn, ast.Compare) and x in pn.comparators) or (isinstance(pn, (ast.For, ast.comprehension)) and pn.iter is x) \
+                or (isinstance(pn, ast.Call) and x in pn.args and isinstance(pn.func, ast.Name) and pn.func.id in READ_ONLY_BUILTINS) \
+                or (isinstance(pn, ast.Compare) and pn.left is x and all(isinstance(o, (ast.Is, ast.IsNot)) for o in pn.ops))
+            if not fine:
+                raise TranslateError(f'EntityFixup.{fn.name}:{x.lineno}: self.{T} escapes (`{ast.unparse(pn)[:50] if pn is not None else ""}`)')
+        if changes:
+            ok = all(reset_reaches(c) for c in changes)
+            shapes.append((fn.name, f'(SChange {cb_(ok)})'))
+            detail.append(f'{fn.name}: {len(changes)} key-changing site(s), cache reset {"at all" if ok else "MISSING at some"}')
+        elif resets:
+            shapes.append((fn.name, '(SChange true)'))
+        for recv, d in sorted(others.items()):
+            if C not in d or T not in d:
+                raise TranslateError(f'EntityFixup.{fn.name}: `{recv}` gets only one of {C}/{T}')
+            if is_none(d[C]):
+                copies = False
+            elif self_attr(d[C]) == C:
+                copies = True
+            else:
+                raise TranslateError(f'EntityFixup.{fn.name}: `{recv}.{C} = {ast.unparse(d[C])[:40]}`')
+            shapes.append((fn.name, f'(SCopy {cb_(same_keys(d[T]))} {cb_(copies)})'))
+            detail.append(f'{fn.name}: builds `{recv}` (same keys: {same_keys(d[T])}, cache copied: {copies})')
+        if not changes and not resets and not others:
+            shapes.append((fn.name, 'SKeep'))
+    # elsewhere: the cache attribute is private to the class; nobody else edits a dict reached through an attribute named T
+    foreign: list[str] = []
+    for fname, tree in [('vmf.py', vtree)] + sorted(other_trees.items()):
+        inside = {id(x) for x in ast.walk(cls)} if fname == 'vmf.py' else set()
+        for x in ast.walk(tree):
+            if id(x) in inside:
+                continue
+            if isinstance(x, ast.Attribute) and x.attr == C:
+                foreign.append(f'{fname}:{x.lineno}: {ast.unparse(x)[:50]}')
+            if isinstance(x, ast.Subscript) and isinstance(x.ctx, (ast.Store, ast.Del)) and isinstance(x.value, ast.Attribute) and x.value.attr == T:
+                foreign.append(f'{fname}:{x.lineno}: {ast.unparse(x)[:50]}')
+            if isinstance(x, ast.Call) and isinstance(x.func, ast.Attribute) and x.func.attr in MUTATING_METHODS \
+                    and isinstance(x.func.value, ast.Attribute) and x.func.value.attr == T:
+                foreign.append(f'{fname}:{x.lineno}: {ast.unparse(x)[:50]}')
+            if isinstance(x, ast.Attribute) and x.attr == T and isinstance(x.ctx, (ast.Store, ast.Del)) and not (
+                    isinstance(x.value, ast.Name) and x.value.id == 'self'):
+                foreign.append(f'{fname}:{x.lineno}: {ast.unparse(x)[:50]}')
+    return {'cache_attr': C, 'table_attr': T, 'shapes': shapes, 'detail': detail, 'foreign': foreign}
+
+
+def cb_(b: bool) -> str:
+    return 'true' if b else 'false'
 
 
 # ---------------------------------------------------------------------------------------------- value sites of collapse_one
@@ -1042,6 +1463,394 @@ def _value_sites(c1: ast.FunctionDef) -> dict:
     if total != S.consumer_calls:
         raise TranslateError(f'collapse_one: {total} substitute/fixup_name/fixup_key calls, {S.consumer_calls} of them in the per-entity loop')
     return {'sites': S.sites, 'subst_defaults': S.subst_defaults}
+
+
+# ---------------------------------------------------------------------------------------------- process-global state
+LOG_METHODS = {'debug', 'info', 'warning', 'warn', 'error', 'exception', 'critical', 'log'}
+TYPING_CALLS = {'TypeVar', 'NewType', 'ParamSpec', 'TypeVarTuple', 'typing.TypeVar', 'typing.NewType'}
+JUMPS = {ast.Continue: 'JContinue', ast.Break: 'JBreak', ast.Return: 'JReturn', ast.Raise: 'JRaise'}
+
+
+def _immutable_value(e: ast.expr | None) -> bool:
+    if e is None or isinstance(e, ast.Constant):
+        return True
+    if isinstance(e, ast.Tuple):
+        return all(_immutable_value(x) for x in e.elts)
+    if isinstance(e, ast.Call) and ast.unparse(e.func) == 'frozenset' and all(_immutable_value(a) for a in e.args) and not e.keywords:
+        return True
+    if isinstance(e, ast.Call) and ast.unparse(e.func) in TYPING_CALLS:
+        return True
+    if isinstance(e, ast.Call) and ast.unparse(e.func) in ('chr', 'str', 'int', 'float', 'bytes') and not e.keywords \
+            and all(isinstance(a, ast.Constant) for a in e.args):
+        return True
+    if isinstance(e, ast.UnaryOp) and isinstance(e.operand, ast.Constant):
+        return True
+    if isinstance(e, (ast.Name, ast.Attribute, ast.Subscript)) :
+        # an alias of something defined elsewhere (type aliases such as Union[...] / imported names): not state of this module
+        return all(isinstance(n, (ast.Name, ast.Attribute, ast.Subscript, ast.Tuple, ast.Constant, ast.Load, ast.List, ast.BinOp, ast.BitOr))
+                   for n in ast.walk(e)) and isinstance(e, (ast.Subscript, ast.Attribute, ast.Name))
+    return False
+
+
+def _module_state(tree: ast.Module, strict: bool = True) -> dict:
+    """Module-level objects of instancing.py that live as long as the process and can change: name -> 'logger' | 'mutable';
+    plus class-level ones (reported, they must not exist: reads through `self.` are not followed)."""
+    names: dict[str, str] = {}
+    class_level: list[str] = []
+    for n in tree.body:
+        tg, val = None, None
+        if isinstance(n, ast.Assign) and len(n.targets) == 1:
+            tg, val = n.targets[0], n.value
+        elif isinstance(n, ast.AnnAssign):
+            tg, val = n.target, n.value
+            if 'TypeAlias' in ast.unparse(n.annotation):
+                continue
+        elif isinstance(n, ast.Assign):
+            if strict or any(isinstance(t, ast.Name) for t in n.targets):
+                raise TranslateError(f'line {n.lineno}: chained module-level assignment')
+            continue          # Class.A = Class.b = ...: class attributes filled in at import time
+        if isinstance(tg, ast.Name):
+            if tg.id.startswith('__') and tg.id.endswith('__'):
+                continue
+            if isinstance(val, ast.Call) and ast.unparse(val.func).split('.')[-1] in ('get_logger', 'getLogger'):
+                names[tg.id] = 'logger'
+            elif isinstance(val, ast.Name) or not _immutable_value(val):
+                names[tg.id] = 'mutable'
+        elif tg is not None and (strict or not isinstance(tg, (ast.Attribute, ast.Tuple))):
+            raise TranslateError(f'line {n.lineno}: module-level assignment target `{ast.unparse(tg)[:40]}`')
+        elif isinstance(tg, ast.Tuple):
+            for t in tg.elts:
+                if not isinstance(t, ast.Name):
+                    raise TranslateError(f'line {n.lineno}: module-level assignment target `{ast.unparse(tg)[:40]}`')
+                names[t.id] = 'mutable'
+
+        if isinstance(n, ast.ClassDef):
+            is_enum = any(ast.unparse(b).split('.')[-1] in ('Enum', 'IntEnum', 'Flag', 'IntFlag') for b in n.bases)
+            for c in n.body:
+                ctg = c.targets[0] if isinstance(c, ast.Assign) and len(c.targets) == 1 else c.target if isinstance(c, ast.AnnAssign) else None
+                cval = getattr(c, 'value', None)
+                if isinstance(ctg, ast.Name) and cval is not None and not is_enum and ctg.id != '__slots__' and not _immutable_value(cval) \
+                        and not (isinstance(cval, ast.Call) and ast.unparse(cval.func).split('.')[-1] in ('field', 'ib', 'Factory')):
+                    class_level.append(f'{n.name}.{ctg.id}')
+    for n in ast.walk(tree):
+        if isinstance(n, ast.Global):
+            for nm in n.names:
+                names[nm] = 'mutable'
+    return {'names': names, 'class_level': class_level}
+
+
+READ_ONLY_METHODS = {'get', 'items', 'keys', 'values', 'index', 'count', 'copy', 'join', 'format', 'match', 'fullmatch', 'search',
+                     'finditer', 'findall', 'sub', 'split', 'unpack', 'unpack_from', 'pack', 'iter_unpack', 'size', 'startswith',
+                     'endswith', 'casefold', 'lower', 'upper', 'encode', 'translate', 'pattern', 'isdisjoint', 'issubset', 'issuperset'}
+READ_ONLY_BUILTINS = {'len', 'enumerate', 'sorted', 'list', 'tuple', 'dict', 'set', 'frozenset', 'reversed', 'zip', 'iter', 'min', 'max',
+                      'sum', 'any', 'all', 'isinstance', 'str', 'repr', 'bool', 'map', 'filter'}
+
+
+def _foreign_module_state(tree: ast.Module, fname: str) -> dict:
+    """Module-level objects of another module collapse_one runs code of (vmf.py): a table that no function ever updates is
+    a constant of the process.  Counted: update sites inside functions (`global`, mutating method, store / del / augmented
+    assignment through the name) and escapes (the object handed to something this census cannot follow)."""
+    ms = _module_state(tree, strict=False)
+    mut = {k for k, v in ms['names'].items() if v == 'mutable'}
+    # names bound to functions / classes / imports are not data
+    updates: list[str] = []
+    escapes: list[str] = []
+    parents: dict[int, ast.AST] = {}
+    for n in ast.walk(tree):
+        for c in ast.iter_child_nodes(n):
+            parents[id(c)] = n
+    def root(e: ast.AST):
+        while isinstance(e, (ast.Subscript, ast.Attribute)):
+            e = e.value
+        return e.id if isinstance(e, ast.Name) else None
+    for fn in ast.walk(tree):
+        if not isinstance(fn, (ast.FunctionDef, ast.AsyncFunctionDef, ast.Lambda)):
+            continue
+        shadow = {a.arg for a in fn.args.args + fn.args.kwonlyargs + fn.args.posonlyargs} | \
+            {x.id for x in ast.walk(fn) if isinstance(x, ast.Name) and isinstance(x.ctx, ast.Store)}
+        declared = {nm for x in ast.walk(fn) if isinstance(x, ast.Global) for nm in x.names}
+        for x in ast.walk(fn):
+            if isinstance(x, ast.Global):
+                updates += [f'{fname}:{x.lineno}: global {nm}' for nm in x.names]
+            if not (isinstance(x, ast.Name) and x.id in mut and (x.id not in shadow or x.id in declared)):
+                continue
+            par = parents.get(id(x))
+            where = f'{fname}:{x.lineno}: {ast.unparse(par)[:60] if par is not None else x.id}'
+            if isinstance(x.ctx, (ast.Store, ast.Del)):
+                updates.append(where)
+            elif isinstance(par, ast.Subscript) and par.value is x:
+                if isinstance(par.ctx, (ast.Store, ast.Del)) or isinstance(parents.get(id(par)), ast.AugAssign) and parents[id(par)].target is par:
+                    updates.append(where)
+                elif isinstance(parents.get(id(par)), (ast.Subscript, ast.Attribute)) and isinstance(parents[id(par)].ctx, (ast.Store, ast.Del)):
+                    updates.append(where)          # X[k][j] = v, X[k].attr = v
+            elif isinstance(par, ast.Attribute) and par.value is x:
+                g = parents.get(id(par))
+                if isinstance(par.ctx, (ast.Store, ast.Del)) or par.attr in MUTATING_METHODS:
+                    updates.append(where)
+                elif not (isinstance(g, ast.Call) and g.func is par and par.attr in READ_ONLY_METHODS) and par.attr not in READ_ONLY_METHODS:
+                    escapes.append(where)
+            elif isinstance(par, ast.Compare) and x in par.comparators and all(isinstance(o, (ast.In, ast.NotIn)) for o in par.ops):
+                pass
+            elif isinstance(par, (ast.For, ast.comprehension)) and par.iter is x:
+                pass
+            elif isinstance(par, ast.Call) and x in par.args and isinstance(par.func, ast.Name) and par.func.id in READ_ONLY_BUILTINS:
+                pass
+            elif isinstance(par, ast.Call) and x in par.args and isinstance(par.func, ast.Attribute) and par.func.attr in READ_ONLY_METHODS \
+                    and root(par.func) not in mut:
+                pass                                  # text.split(SEP), SEP handed to a read-only method of something else
+            elif isinstance(par, ast.Starred) or isinstance(par, ast.keyword) and par.arg is None:
+                pass                                  # f(*X) / f(**X): a copy is passed
+            elif isinstance(par, (ast.JoinedStr, ast.FormattedValue, ast.BinOp, ast.BoolOp, ast.UnaryOp, ast.IfExp)):
+                pass                                  # a value computed from it (immutable result for str / int operands)
+            else:
+                escapes.append(where)
+    return {'module_level': sorted(mut), 'class_level': ms['class_level'], 'updates': updates, 'escapes': escapes}
+
+
+class _Skel:
+    """Statements of one function -> control-flow skeleton of SM/C17Global.v (fail-closed on statement forms)."""
+    def __init__(self, mut: set[str], loggers: set[str], state_funcs: dict[str, ast.FunctionDef] | None = None,
+                 state_methods: dict[str, ast.FunctionDef] | None = None, stack: tuple[str, ...] = ()) -> None:
+        self.mut, self.loggers = mut, loggers
+        # functions / methods of the module that (transitively) mention a module-level mutable object: a call of one of
+        # them is not an opaque effect on the program state, it is `KCall <its skeleton>` (the global state is threaded through)
+        self.state_funcs, self.state_methods = state_funcs or {}, state_methods or {}
+        self.stack = stack
+        self.n = 0
+        self.global_tests: list[str] = []
+        self.tainted: list[str] = []
+
+    def calls(self, *nodes: ast.AST | None) -> list[str]:
+        """`KCall` for every call of a state function inside the expressions [nodes], in source order; a state function
+        used as a value (callback, alias) is not followed: fail closed."""
+        out: list[tuple[int, int, str]] = []
+        for node in nodes:
+            if node is None:
+                continue
+            called = set()
+            for x in ast.walk(node):
+                if not isinstance(x, ast.Call):
+                    continue
+                fn = None
+                if isinstance(x.func, ast.Name) and x.func.id in self.state_funcs:
+                    fn, called = self.state_funcs[x.func.id], called | {id(x.func)}
+                    qn = x.func.id
+                elif isinstance(x.func, ast.Attribute) and x.func.attr in self.state_methods and not self.is_log_call(x) \
+                        and not self.is_self_update(x):
+                    fn, qn = self.state_methods[x.func.attr], '.' + x.func.attr
+                if fn is None:
+                    continue
+                if qn in self.stack:
+                    raise TranslateError(f'instancing.py:{x.lineno}: recursive call of `{qn}`, a function that touches module-level state')
+                sub = _Skel(self.mut, self.loggers, self.state_funcs, self.state_methods, self.stack + (qn,))
+                sub.n = self.n
+                sk = sub.block(_body(fn))
+                self.n = sub.n
+                self.global_tests += [t for t in sub.global_tests if t not in self.global_tests]
+                self.tainted += [t for t in sub.tainted if t not in self.tainted]
+                out.append((x.lineno, x.col_offset, f'(KCall {sk})'))
+            for x in ast.walk(node):
+                if isinstance(x, ast.Name) and x.id in self.state_funcs and id(x) not in called:
+                    raise TranslateError(f'instancing.py:{x.lineno}: `{x.id}` (touches module-level state) used as a value')
+        return [c for _l, _c, c in sorted(out)]
+
+    def fresh(self) -> int:
+        self.n += 1
+        return self.n
+
+    def reads(self, node: ast.AST) -> bool:
+        return any(isinstance(x, ast.Name) and x.id in self.mut for x in ast.walk(node))
+
+    @staticmethod
+    def inert(e: ast.expr | None) -> bool:
+        """Evaluating [e] cannot raise or act: names, constants, tuples of those, comparisons / boolean operators on those."""
+        if e is None:
+            return True
+        return all(isinstance(n, (ast.Name, ast.Constant, ast.Tuple, ast.Compare, ast.BoolOp, ast.UnaryOp, ast.Not, ast.And, ast.Or, ast.Load,
+                                  ast.In, ast.NotIn, ast.Is, ast.IsNot, ast.Eq, ast.NotEq)) for n in ast.walk(e))
+
+    @staticmethod
+    def seq(parts: list[str]) -> str:
+        parts = [p for p in parts if p != 'KNil']
+        if not parts:
+            return 'KNil'
+        out = parts[-1]
+        for p in reversed(parts[:-1]):
+            out = f'(KSeq {p} {out})'
+        return out
+
+    def taint(self, st: ast.AST) -> str:
+        self.tainted.append(f'line {getattr(st, "lineno", "?")}: {ast.unparse(st)[:70]}')
+        return f'(KTainted {self.fresh()})'
+
+    def eff(self) -> str:
+        return f'(KEff {self.fresh()})'
+
+    def block(self, body: list[ast.stmt]) -> str:
+        return self.seq([self.stmt(st) for st in body])
+
+    def is_log_call(self, e: ast.expr) -> bool:
+        return isinstance(e, ast.Call) and isinstance(e.func, ast.Attribute) and (
+            (isinstance(e.func.value, ast.Name) and e.func.value.id in self.loggers and e.func.attr in LOG_METHODS)
+            or ast.unparse(e.func) == 'warnings.warn')
+
+    def is_self_update(self, e: ast.expr) -> bool:
+        return isinstance(e, ast.Call) and isinstance(e.func, ast.Attribute) and isinstance(e.func.value, ast.Name) \
+            and e.func.value.id in self.mut and e.func.attr in MUTATING_METHODS
+
+    def args_effect(self, call: ast.Call) -> list[str]:
+        """The arguments of a log / update call are evaluated first: anything but inert expressions is an effect."""
+        args = list(call.args) + [k.value for k in call.keywords]
+        if all(self.inert(a) or isinstance(a, ast.JoinedStr) and all(self.inert(v.value) for v in a.values if isinstance(v, ast.FormattedValue))
+               or isinstance(a, ast.Attribute) and self.inert(a.value) for a in args):
+            return []
+        return self.calls(*args) + [self.eff()]
+
+    def stmt(self, st: ast.stmt) -> str:
+        if isinstance(st, ast.Expr):
+            v = st.value
+            if isinstance(v, ast.Constant):
+                return 'KNil'
+            if self.is_log_call(v):
+                return self.seq(self.args_effect(v) + ['KLog'])          # what is logged may mention the global state
+            if self.is_self_update(v):
+                return self.seq(self.args_effect(v) + [f'(KUpd {self.fresh()})'])
+            if self.reads(st):
+                return self.taint(st)
+            cs = self.calls(v)
+            if cs and isinstance(v, ast.Call) and len(cs) == 1 and (
+                    isinstance(v.func, ast.Name) and v.func.id in self.state_funcs
+                    or isinstance(v.func, ast.Attribute) and v.func.attr in self.state_methods and self.inert(v.func.value)) and \
+                    all(self.inert(a) for a in list(v.args) + [k.value for k in v.keywords]):
+                return cs[0]                  # `helper(a, b)` as a statement, inert arguments: nothing but the call
+            return self.seq(cs + [self.eff()])
+        if isinstance(st, (ast.Pass, ast.Global, ast.Nonlocal, ast.Import, ast.ImportFrom)):
+            return 'KNil'
+        if isinstance(st, (ast.FunctionDef, ast.AsyncFunctionDef, ast.ClassDef)):
+            if self.reads(st):
+                raise TranslateError(f'instancing.py:{st.lineno}: nested definition `{st.name}` reads module-level state')
+            return 'KNil'
+        if isinstance(st, (ast.Assign, ast.AugAssign, ast.AnnAssign, ast.Delete)):
+            tgs = st.targets if isinstance(st, (ast.Assign, ast.Delete)) else [st.target]
+            roots = []
+            for t in tgs:
+                r = t
+                while isinstance(r, (ast.Subscript, ast.Attribute)):
+                    r = r.value
+                roots.append(r.id if isinstance(r, ast.Name) else None)
+            if roots and all(r in self.mut for r in roots) and all(isinstance(t, (ast.Subscript, ast.Name)) for t in tgs):
+                val = getattr(st, 'value', None)
+                pre = [] if val is None or self.inert(val) else [self.eff()]
+                return self.seq(pre + [f'(KUpd {self.fresh()})'])        # G[k] = v / del G[k] / G = ... (with `global`)
+            if isinstance(st, ast.AnnAssign) and st.value is None:
+                return 'KNil'
+            return self.taint(st) if self.reads(st) else self.seq(self.calls(st) + [self.eff()])
+        if isinstance(st, ast.Assert):
+            return self.taint(st) if self.reads(st) else self.seq(self.calls(st) + [self.eff()])
+        if type(st) in JUMPS:
+            val = getattr(st, 'value', None) if isinstance(st, ast.Return) else getattr(st, 'exc', None) if isinstance(st, ast.Raise) else None
+            pre = []
+            if val is not None and self.reads(val):
+                pre = [self.taint(st)]
+            elif val is not None and not self.inert(val):
+                pre = self.calls(val) + [self.eff()]
+            elif isinstance(st, ast.Return) and val is not None and not (isinstance(val, ast.Constant) and val.value is None):
+                pre = [self.eff()]          # a returned value is data handed to the caller: only a bare `return` is quiet
+            return self.seq(pre + [f'(KJump {JUMPS[type(st)]})'])
+        if isinstance(st, ast.If):
+            a, b = self.block(st.body), self.block(st.orelse)
+            if self.reads(st.test):
+                self.global_tests.append(f'line {st.lineno}: {ast.unparse(st.test)[:70]}')
+                pre = [] if self.inert(st.test) else [self.taint(st.test)]
+                return self.seq(pre + [f'(KIf (TGlobal {self.fresh()}) {a} {b})'])
+            pre = [] if self.inert(st.test) else self.calls(st.test) + [self.eff()]
+            return self.seq(pre + [f'(KIf (TOther {self.fresh()}) {a} {b})'])
+        if isinstance(st, ast.For):
+            if st.orelse:
+                raise TranslateError(f'instancing.py:{st.lineno}: for/else in a function that reads module-level state')
+            head = [self.taint(st.iter)] if self.reads(st.iter) or self.reads(st.target) else self.calls(st.iter) + [self.eff()]
+            return self.seq(head + [f'(KLoop {self.fresh()} {self.block(st.body)})'])
+        if isinstance(st, ast.Try):
+            if st.finalbody:
+                raise TranslateError(f'instancing.py:{st.lineno}: try/finally in a function that reads module-level state')
+            chain = '(KJump JRaise)'
+            for h in reversed(st.handlers):
+                if h.type is not None and self.reads(h.type):
+                    raise TranslateError(f'instancing.py:{h.lineno}: except clause reads module-level state')
+                chain = f'(KIf (TOther {self.fresh()}) {self.block(h.body)} {chain})'
+            return f'(KTry {self.block(st.body)} {chain} {self.block(st.orelse)})'
+        raise TranslateError(f'instancing.py:{st.lineno}: statement {type(st).__name__} in a function that reads module-level state')
+
+
+def _process_state(tree: ast.Module) -> dict:
+    """Every function of instancing.py that mentions a module-level mutable object, as a skeleton; collapse_one always."""
+    ms = _module_state(tree)
+    mut = {k for k, v in ms['names'].items() if v == 'mutable'}
+    loggers = {k for k, v in ms['names'].items() if v == 'logger'}
+    funcs: list[tuple[str, ast.FunctionDef]] = []
+    for n in tree.body:
+        if isinstance(n, ast.FunctionDef) and not _is_overload(n):
+            funcs.append((n.name, n))
+        if isinstance(n, ast.ClassDef):
+            funcs += [(f'{n.name}.{f.name}', f) for f in n.body if isinstance(f, ast.FunctionDef) and not _is_overload(f)]
+    out, tests, tainted = [], [], []
+    logger_misuse: list[str] = []
+    # functions that touch the module-level state, directly or through a call of such a function (fixpoint)
+    direct = {qn for qn, fn in funcs if any(isinstance(x, ast.Name) and x.id in mut for x in ast.walk(fn))}
+    state: set[str] = set(direct)
+    while True:
+        names = {qn for qn in state if '.' not in qn}
+        meths = {qn.split('.', 1)[1] for qn in state if '.' in qn}
+        more = {qn for qn, fn in funcs if qn not in state and any(
+            isinstance(x, ast.Call) and (isinstance(x.func, ast.Name) and x.func.id in names
+                                         or isinstance(x.func, ast.Attribute) and x.func.attr in meths) for x in ast.walk(fn))}
+        if not more:
+            break
+        state |= more
+    state_funcs = {qn: fn for qn, fn in funcs if qn in state and '.' not in qn}
+    state_methods: dict[str, ast.FunctionDef] = {}
+    for qn, fn in funcs:
+        if qn in state and '.' in qn:
+            m = qn.split('.', 1)[1]
+            if m in state_methods:
+                raise TranslateError(f'instancing.py: two methods named `{m}` touch module-level state (calls are resolved by name)')
+            state_methods[m] = fn
+    # other state that outlives a call: mutable default arguments, memoising decorators, function attributes
+    hidden_state: list[str] = []
+    for qn, fn in funcs:
+        for d in fn.args.defaults + [d for d in fn.args.kw_defaults if d is not None]:
+            if not _immutable_value(d) and not (isinstance(d, ast.Call) and not d.args and not d.keywords
+                                                and ast.unparse(d.func) in ('frozenset', 'tuple', 'object')):
+                if isinstance(d, (ast.List, ast.Dict, ast.Set, ast.ListComp, ast.DictComp, ast.SetComp, ast.Call)):
+                    hidden_state.append(f'{qn}: mutable default argument `{ast.unparse(d)[:40]}`')
+        for d in fn.decorator_list:
+            dn = ast.unparse(d.func if isinstance(d, ast.Call) else d).split('.')[-1]
+            if 'cache' in dn.lower() or dn in ('memoize', 'memoise', 'singledispatch'):
+                hidden_state.append(f'{qn}: decorator `{dn}`')
+    fnames = {qn for qn, _ in funcs if '.' not in qn}
+    for x in ast.walk(tree):
+        if isinstance(x, ast.Attribute) and isinstance(x.ctx, (ast.Store, ast.Del)) and isinstance(x.value, ast.Name) and x.value.id in fnames:
+            hidden_state.append(f'line {x.lineno}: function attribute `{ast.unparse(x)}` is assigned')
+    for qn, fn in funcs:
+        # the logger is process-global too: anything but `LOGGER.<level>(...)` as a statement would be a read of its configuration
+        stmt_calls = {id(st.value.func.value) for st in ast.walk(fn) if isinstance(st, ast.Expr) and isinstance(st.value, ast.Call)
+                      and isinstance(st.value.func, ast.Attribute) and st.value.func.attr in LOG_METHODS}
+        for x in ast.walk(fn):
+            if isinstance(x, ast.Name) and x.id in loggers and id(x) not in stmt_calls:
+                logger_misuse.append(f'{qn} line {x.lineno}')
+        if qn != 'collapse_one' and qn not in state:
+            continue
+        if any(a.arg in mut for a in fn.args.args + fn.args.kwonlyargs) or \
+                any(isinstance(x, ast.Name) and isinstance(x.ctx, ast.Store) and x.id in mut for x in ast.walk(fn)
+                    if not any(isinstance(g, ast.Global) and x.id in g.names for g in ast.walk(fn))):
+            raise TranslateError(f'instancing.py: {qn} shadows a module-level name')
+        K = _Skel(mut, loggers, state_funcs, state_methods, (qn if '.' not in qn else '.' + qn.split('.', 1)[1],))
+        sk = K.block(_body(fn))
+        out.append((qn, sk))
+        tests += [f'{qn} {t}' for t in K.global_tests]
+        tainted += [f'{qn} {t}' for t in K.tainted]
+    return {'module_level': ms['names'], 'class_level': ms['class_level'], 'functions': out, 'global_tests': tests, 'tainted': tainted,
+            'logger_misuse': logger_misuse, 'hidden_state': hidden_state, 'calls_inlined': sum(sk.count('(KCall ') for _q, sk in out)}
 
 
 # ---------------------------------------------------------------------------------------------- visible objects, ID maps
@@ -1384,6 +2193,24 @@ def translate() -> tuple[str, dict]:
                    ';\n  '.join(f'({_coq_codes(lab)}, {_sx_coq(e)})' for lab, e in vs['sites']) + '].')
     E.lines.append(f'Definition g_collapse_subst_defaults_empty : bool := {cb(all(d == repr("") for d in vs["subst_defaults"]))}.')
 
+    # process-global state: which decisions read module-level mutable objects, and what they guard (SM/C17Global.v)
+    ps = _process_state(itree)
+    side['process_state'] = {k: v for k, v in ps.items() if k != 'functions'}
+    side['process_state']['functions'] = [qn for qn, _ in ps['functions']]
+    E.lines.append('Definition g_process_state_functions : list (list N * skel) := [\n  ' +
+                   ';\n  '.join(f'({_coq_codes(qn)}, {sk})' for qn, sk in ps['functions']) + '].')
+    E.lines.append(f'Definition g_module_state_untracked : nat := {len(ps["class_level"]) + len(ps["logger_misuse"]) + len(ps["hidden_state"])}.')
+    # vmf.py (copy / localise / substitute run there): its module-level tables are never updated by a function and never escape
+    vs_state = _foreign_module_state(ast.parse(src_text('vmf.py')), 'vmf.py')
+    side['vmf_module_state'] = vs_state
+    fc = _fixup_cache(ast.parse(src_text('vmf.py')), {'instancing.py': itree})
+    side['fixup_pattern_cache'] = fc
+    E.lines.append('Definition g_fixup_cache_shapes : list (list N * shape) := [\n  ' +
+                   ';\n  '.join(f'({_coq_codes(nm)}, {sh})' for nm, sh in fc['shapes']) + '].')
+    E.lines.append(f'Definition g_fixup_cache_foreign : nat := {len(fc["foreign"])}.')
+    E.lines.append(f'Definition g_vmf_module_state_updates : nat := {len(vs_state["updates"])}.')
+    E.lines.append(f'Definition g_vmf_module_state_escapes : nat := {len(vs_state["escapes"])}.')
+
     # collapse_all loop shape
     shape = _collapse_all_shape(_find_func(itree, 'collapse_all'), itree)
     side['collapse_all'] = shape
@@ -1442,7 +2269,7 @@ def translate() -> tuple[str, dict]:
                        'fixup_key': ast_digest(fk), 'substitute': sc['digest']}
     head = ['(* GENERATED by translate/c17_formulas.py from src/srctools/{math,vmf,instancing}.py. Do not edit. *)',
             'From Coq Require Import Reals ZArith NArith List String.',
-            'From SV Require Import Rot.C17Base SM.C17Name SM.C17Subst SM.C17Sites SM.C17Frame.',
+            'From SV Require Import Rot.C17Base SM.C17Name SM.C17Subst SM.C17Sites SM.C17Frame SM.C17Global SM.C17Cache.',
             'Import ListNotations.', 'Open Scope string_scope.', 'Open Scope R_scope.', '']
     side['defs'] = sorted(E.defs)
     _LAST.clear()
